@@ -34,6 +34,7 @@ pub(crate) mod verif_u3 {
         ep.sync_random_requests.insert(n1);
         ep.sync_random_requests.insert(n2);
         let fresh: u32 = kani::any();
+        rand::tape_reset();
         rand::tape_push(fresh as u64);
         let x: u32 = kani::any();
         let g: u16 = kani::any();
@@ -139,6 +140,7 @@ pub(crate) mod verif_u3 {
         kani::assume(waited <= 5000);
         ep.last_sync_request_time = Instant::from_ms(100_000 - waited);
         ep.last_recv_time = Instant::from_ms(50_000); // long silence: no interruption events before Running
+        rand::tape_reset();
         rand::tape_push(kani::any::<u32>() as u64);
         let cs = [ConnectionStatus::default(); 2];
         {
